@@ -1,0 +1,9 @@
+//go:build !verif
+
+package framework
+
+import (
+	"github.com/NVIDIA/KAI-scheduler/pkg/scheduler/api/pod_info"
+)
+
+func verifHook(*Statement, string, *pod_info.PodInfo, string) {}
